@@ -1,6 +1,7 @@
 (* PropModel: executable byte-level model of src/vnaproperty.c (scanner, descriptor parser,
    parse_and_descend, vset/vdelete/vget/vtype/vcount/vkeys/vget_subtree/vset_subtree, quote_key,
-   copy).  Follows the C code as it is after the fixes in /verif/fixes (D1, D2, D3, D39, D41);
+   copy).  Follows the C code as it is after the fixes D01, D02, D03, D39, D39b, D54, DP1 (all committed
+   in /repo);
    no proofs in this file.
 
    Conventions
@@ -407,7 +408,9 @@ Definition vget_subtree (root : node) (d : bytes) : outcome :=
 Definition last_is_collection (es : list expr) : bool :=
   match last es E_DOT with E_MAP | E_LIST => true | _ => false end.
 
-(* vset: the tree is conformed first; the tail / look-ahead tests come afterwards *)
+(* vset (after fix D54): the tail and the look-ahead are validated before descending, so a
+   refused call leaves the tree unchanged; an error found while descending (a subscript that is
+   out of range) still leaves the part of the path conformed so far *)
 Definition vset (root : node) (d : bytes) : node * outcome :=
   match parse d with
   | None => (root, fail EINVAL)
@@ -419,12 +422,14 @@ Definition vset (root : node) (d : bytes) : node * outcome :=
              | T_HASH => inr NNull
              | _ => inl EINVAL
              end in
-    let fin (n : node) : node * unit :=
-        match verdict with inl _ => (n, tt) | inr v => (v, tt) end in
-    let '(root', r) := descend_set es fin root in
-    match r with
-    | inl e => (root', fail e)
-    | inr _ => match verdict with inl e => (root', fail e) | inr _ => (root', ok0) end
+    match verdict with
+    | inl e => (root, fail e)
+    | inr v =>
+      let '(root', r) := descend_set es (fun _ => (v, tt)) root in
+      match r with
+      | inl e => (root', fail e)
+      | inr _ => (root', ok0)
+      end
     end
   end.
 
@@ -439,16 +444,14 @@ Definition vdelete (root : node) (d : bytes) : node * outcome :=
   end.
 
 (* vset_subtree followed by an operation [inner] on the returned anchor (the C harness calls
-   the inner function with the returned vnaproperty_t ** straight away).  When set_subtree
-   fails the tree has still been conformed. *)
+   the inner function with the returned vnaproperty_t ** straight away).  Trailing tokens are
+   refused before descending (fix D54). *)
 Definition vset_subtree_then {A} (root : node) (d : bytes) (inner : node -> node * A)
   : node * (ecode + A) :=
   match parse d with
   | None => (root, inl EINVAL)
   | Some (es, t, _) =>
-    if is_eof t then descend_set es inner root
-    else let '(root', r) := descend_set es (fun n => (n, tt)) root in
-         match r with inl e => (root', inl e) | inr _ => (root', inl EINVAL) end
+    if is_eof t then descend_set es inner root else (root, inl EINVAL)
   end.
 
 Definition vset_subtree (root : node) (d : bytes) : node * outcome :=
